@@ -851,6 +851,22 @@ pub fn execute(plan: &HistPlan, preds: &[Predictor], ex: &mut Exec) -> (Option<V
                                 format!("input={input:?} obs={:?} expect={:?}", ro, e),
                             ));
                         }
+                    } else if let Op::UpdateTokenized { s, .. } | Op::NewTokenized { s } | Op::UpdatePartial { s, .. } | Op::NewPartial { s } = op {
+                        // no generator ground truth: ask the independent reference parser
+                        let tokenized = matches!(op, Op::UpdateTokenized { .. } | Op::NewTokenized { .. });
+                        match if tokenized { crate::refparse::tokenized(s) } else { crate::refparse::partial(s) } {
+                            Some(e) => {
+                                probe!("accepted-input-checked-against-reference-parser");
+                                if let Some(acc) = check_expect(&ro, &e) {
+                                    step_violation = Some((
+                                        Focus::C05,
+                                        format!("reference-parser@{}:{acc}", op.kind()),
+                                        format!("input={input:?} obs={:?} reference={:?}", ro, e),
+                                    ));
+                                }
+                            }
+                            None => probe!("accepted-by-library-rejected-by-reference-parser(not flagged)"),
+                        }
                     } else if let Op::UpdateRaw { s, .. } | Op::NewRaw { s, .. } = op {
                         let e = Expect {
                             raw: s.clone(),
